@@ -519,3 +519,63 @@ package hotline
 //@   property C18
 //@   before call (*hotline.NewsArtList).Read assert false
 //@   before call io.ReadAll assert reader_kind(arg0) == 3
+
+// ---------------------------------------------------------------------------------
+// C03: shared maps are touched under their mutex only (a concurrent unsynchronised map write aborts
+// the whole process).
+
+//@ func (s *Server) rateLimiterFor(ipAddr string) (rl *rate.Limiter)
+//@   property C03
+//@   guarded_by s.rateLimitersMu: rateLimiters
+
+//@ func (cm *MemChatManager) New(cc *ClientConn) (id ChatID)
+//@   property C03
+//@   guarded_by cm.mu: chats
+//@ func (cm *MemChatManager) Join(id ChatID, cc *ClientConn)
+//@   property C03
+//@   guarded_by cm.mu: chats
+//@ func (cm *MemChatManager) Leave(id ChatID, clientID [2]byte)
+//@   property C03
+//@   guarded_by cm.mu: chats
+//@ func (cm *MemChatManager) Members(id ChatID) (r []*ClientConn)
+//@   property C03
+//@   guarded_by cm.mu: chats
+//@ func (cm *MemChatManager) GetSubject(id ChatID) (r string)
+//@   property C03
+//@   guarded_by cm.mu: chats
+//@ func (cm *MemChatManager) SetSubject(id ChatID, subject string)
+//@   property C03
+//@   guarded_by cm.mu: chats
+
+//@ func (ftm *MemFileTransferMgr) Add(ft *FileTransfer)
+//@   property C03
+//@   guarded_by ftm.mu: fileTransfers
+//@ func (ftm *MemFileTransferMgr) Get(id FileTransferID) (r *FileTransfer)
+//@   property C03
+//@   guarded_by ftm.mu: fileTransfers
+//@ func (ftm *MemFileTransferMgr) Delete(id FileTransferID)
+//@   property C03
+//@   guarded_by ftm.mu: fileTransfers
+
+//@ func (cftm *ClientFileTransferMgr) Add(ftType FileTransferType, ft *FileTransfer)
+//@   property C03
+//@   guarded_by cftm.mu: transfers
+//@ func (cftm *ClientFileTransferMgr) Get(ftType FileTransferType) (r []FileTransfer)
+//@   property C03
+//@   guarded_by cftm.mu: transfers
+//@ func (cftm *ClientFileTransferMgr) Delete(ftType FileTransferType, id FileTransferID)
+//@   property C03
+//@   guarded_by cftm.mu: transfers
+
+//@ func (s *Stats) Increment(keys []int)
+//@   property C03
+//@   guarded_by s.mu: stats
+//@ func (s *Stats) Decrement(key int)
+//@   property C03
+//@   guarded_by s.mu: stats
+//@ func (s *Stats) Set(key int, val int)
+//@   property C03
+//@   guarded_by s.mu: stats
+//@ func (s *Stats) Get(key int) (r int)
+//@   property C03
+//@   guarded_by s.mu: stats
